@@ -357,6 +357,21 @@ def exodus_dataset(mesh, d):
             arr[i, : len(f)] = [v + 1 for v in f]
         ds["connect1"] = xr.DataArray(arr, dims=["num_el_in_blk1", "num_nod_per_el1"], attrs={"elem_type": "SHELL"})
         order = list(range(len(faces)))
+    elif str(d.get("blocks")).startswith("runs"):
+        # one block per run of consecutive faces of one size, runs cut into chunks of at most k elements ("runs-k"):
+        # many blocks (one per region / material), element order = face order
+        k = int(str(d["blocks"]).split("-")[1])
+        b = 0
+        i = 0
+        while i < len(faces):
+            j = i
+            while j < len(faces) and len(faces[j]) == len(faces[i]) and j - i < k:
+                j += 1
+            b += 1
+            arr = np.array([[v + 1 for v in faces[t]] for t in range(i, j)], dtype=dt).reshape(j - i, len(faces[i]))
+            ds[f"connect{b}"] = xr.DataArray(arr, dims=[f"num_el_in_blk{b}", f"num_nod_per_el{b}"], attrs={"elem_type": "SHELL"})
+            i = j
+        order = list(range(len(faces)))
     else:
         sizes = sorted({len(f) for f in faces})
         if d.get("blocks") == "by-size-desc":
